@@ -451,7 +451,7 @@ def run(ctx):
         ncorp = len(json.load(open(cj)))
         step = max(1, (ncorp + 15) // 16)
         ctx.map(fuzz_replay_shard, [(ctx.here, lo, lo + step) for lo in range(0, ncorp, step)])
-    ctx.map(fuzz_shard, campaign_args(ctx, 4, 20, 10000, 400000, 18))
+    ctx.map(fuzz_shard, campaign_args(ctx, 4, 20, 10000, 120000, 18))
     ctx.exhaustive = True
     ctx.extra["exhaustive_bounds"] = "all bracket strings of length <= %d in 3 contexts; all single-bracket mutants of every base program" % nmax
 
